@@ -33,6 +33,16 @@ func Lookup(prop string) Engine {
 			world.Run(r, world.Flavours["C10"], steps(r, 12, 30))
 		}
 	}
+	if prop == "C16" {
+		// E1 merge histories with per-field options, and sources whose value under the named path is a reference
+		return func(r *sim.R) {
+			if r.T.Weighted([]int{11, 1}, "c16-family") == 1 {
+				world.RefPolicy(r)
+				return
+			}
+			world.Run(r, world.Flavours["C16"], steps(r, 12, 30))
+		}
+	}
 	if f, ok := world.Flavours[prop]; ok && prop != "C14" {
 		return func(r *sim.R) { world.Run(r, f, steps(r, 12, 30)) }
 	}
